@@ -391,4 +391,50 @@ Proof.
     + rewrite spl_f_affine by exact Hsx. unfold aff_val. destruct dx as [|[|dx]]; ring.
   - rewrite spl_f_affine by exact Hsy. unfold aff_val. destruct dx as [|[|dx]]; destruct dy as [|[|dy]]; ring.
 Qed.
+(* spatial_derivatives(mode='bspline') on coefficients that are affine in the control point position *)
+Lemma bspline_mode_affine_2d (dx dy sx sy mx my : nat) (hx hy : K) (c : list (list K)) (a bx by_ : K) (x y : nat) :
+  (1 <= sx)%nat -> (1 <= sy)%nat -> (x < mx)%nat -> (y < my)%nat ->
+  (forall j i, (j < ctrl_size my sy)%nat -> (i < ctrl_size mx sx)%nat -> at2 c j i = a + bx * cpos sx i + by_ * cpos sy j) ->
+  bsd2_at dx dy sx sy hx hy c y x =
+    aff_val dy sy y (aff_val dx sx x a bx) (match dx with 0%nat => by_ | _ => 0 end) / (fpow hx dx * fpow hy dy).
+Proof.
+  intros Hsx Hsy Hx Hy Hc. unfold bsd2_at.
+  rewrite (ffd_affine_exact_2d dx dy sx sy mx my c a bx by_ x y Hsx Hsy Hx Hy Hc). reflexivity.
+Qed.
+
+Lemma bspline_mode_affine_3d (dx dy dz sx sy sz mx my mz : nat) (hx hy hz : K) (c : list (list (list K))) (a bx by_ bz : K) (x y z : nat) :
+  (1 <= sx)%nat -> (1 <= sy)%nat -> (1 <= sz)%nat -> (x < mx)%nat -> (y < my)%nat -> (z < mz)%nat ->
+  (forall k j i, (k < ctrl_size mz sz)%nat -> (j < ctrl_size my sy)%nat -> (i < ctrl_size mx sx)%nat ->
+     at3 c k j i = a + bx * cpos sx i + by_ * cpos sy j + bz * cpos sz k) ->
+  bsd3_at dx dy dz sx sy sz hx hy hz c z y x =
+    aff_val dz sz z (aff_val dy sy y (aff_val dx sx x a bx) (match dx with 0%nat => by_ | _ => 0 end))
+            (match dx, dy with 0%nat, 0%nat => bz | _, _ => 0 end) / (fpow hx dx * fpow hy dy * fpow hz dz).
+Proof.
+  intros Hsx Hsy Hsz Hx Hy Hz Hc. unfold bsd3_at.
+  rewrite (ffd_affine_exact_3d dx dy dz sx sy sz mx my mz c a bx by_ bz x y z Hsx Hsy Hsz Hx Hy Hz Hc). reflexivity.
+Qed.
+
+(* first order, coefficients given as a function of the *physical* control point position P_j = (j - 1) h (slope g per
+   physical unit): the B-spline-mode partial derivative is g, at every output sample and for every stride *)
+Lemma bspline_mode_gradient_3d (sx sy sz mx my mz : nat) (hx hy hz : K) (c : list (list (list K))) (a gx gy gz : K) (x y z : nat) :
+  (1 <= sx)%nat -> (1 <= sy)%nat -> (1 <= sz)%nat -> (x < mx)%nat -> (y < my)%nat -> (z < mz)%nat ->
+  hx <> 0 -> hy <> 0 -> hz <> 0 ->
+  (forall k j i, (k < ctrl_size mz sz)%nat -> (j < ctrl_size my sy)%nat -> (i < ctrl_size mx sx)%nat ->
+     at3 c k j i = a + gx * (of_Z (Z.of_nat i - 1) * hx) + gy * (of_Z (Z.of_nat j - 1) * hy) + gz * (of_Z (Z.of_nat k - 1) * hz)) ->
+  bsd3_at 1 0 0 sx sy sz hx hy hz c z y x = gx /\ bsd3_at 0 1 0 sx sy sz hx hy hz c z y x = gy /\
+  bsd3_at 0 0 1 sx sy sz hx hy hz c z y x = gz.
+Proof.
+  intros Hsx Hsy Hsz Hx Hy Hz Nx Ny Nz Hc.
+  pose proof (zn_nz sx Hsx) as Zx. pose proof (zn_nz sy Hsy) as Zy. pose proof (zn_nz sz Hsz) as Zz.
+  assert (Hc' : forall k j i, (k < ctrl_size mz sz)%nat -> (j < ctrl_size my sy)%nat -> (i < ctrl_size mx sx)%nat ->
+     at3 c k j i = a + (gx * hx / zn sx) * cpos sx i + (gy * hy / zn sy) * cpos sy j + (gz * hz / zn sz) * cpos sz k).
+  { intros k j i Hk Hj Hi. rewrite Hc by assumption. unfold cpos. field. repeat split; assumption. }
+  repeat split.
+  - rewrite (bspline_mode_affine_3d 1 0 0 sx sy sz mx my mz hx hy hz c _ _ _ _ x y z Hsx Hsy Hsz Hx Hy Hz Hc').
+    unfold aff_val, fpow. field. repeat split; assumption.
+  - rewrite (bspline_mode_affine_3d 0 1 0 sx sy sz mx my mz hx hy hz c _ _ _ _ x y z Hsx Hsy Hsz Hx Hy Hz Hc').
+    unfold aff_val, fpow. field. repeat split; assumption.
+  - rewrite (bspline_mode_affine_3d 0 0 1 sx sy sz mx my mz hx hy hz c _ _ _ _ x y z Hsx Hsy Hsz Hx Hy Hz Hc').
+    unfold aff_val, fpow. field. repeat split; assumption.
+Qed.
 End Proofs.
